@@ -7,6 +7,8 @@ CONSTANTS
   BreakStep = 1
   FromInput <- FromBoth
   ExplicitTargets = FALSE
+  Replacements <- NoRepl
+  Edits <- NoEdits
   Refusals = FALSE
   ZeroHeightRefused = TRUE
   AlignTarget = FALSE
